@@ -345,6 +345,31 @@ func c14Run(c *hx.Ctx, tier, unit string) {
 				return
 			}
 		}
+		// the types whose sub-types the specification lays out (hardware, ACPI, messaging, media, BBS,
+		// end): sub-types 0..31, every body length 0..40, bodies a decoder of strings and counted
+		// fields may trip over (no NUL, one NUL at the end, NULs in the middle, UTF-16, all ones)
+		for _, t := range []int{1, 2, 3, 4, 5, 0x7f} {
+			if t%4 != shard {
+				continue
+			}
+			for st := 0; st < 32; st++ {
+				for bl := 0; bl <= 40; bl++ {
+					for pi, pat := range c14BodyPatterns(bl) {
+						for _, withEnd := range []bool{true, false} {
+							if !withEnd && pi > 1 {
+								continue
+							}
+							node := append([]byte{byte(t), byte(st), byte(4 + bl), 0}, pat...)
+							b := append(append([]byte{}, hdr...), node...)
+							if withEnd {
+								b = append(b, dpgen.End...)
+							}
+							robustRun(c, "C14", "EFILoadOption.Unmarshal+Format", "device-path node body sweep", b, func() { c14LoadOption(b) })
+						}
+					}
+				}
+			}
+		}
 	case unit == "loadopt-strings":
 		shortStrings([]byte{0x00, 0x01, 0x04, 0x7f, 0xff, 0x41}, 6, func(b []byte) {
 			robustRun(c, "C14", "EFILoadOption.Unmarshal+Format", "short string", b, func() { c14LoadOption(b) })
@@ -666,4 +691,45 @@ func c14Static(c *hx.Ctx) {
 		c.Note("termination call site not in the committed baseline (coverage goal, not an alarm): %s", f)
 	}
 	c.Sample(map[string]any{"termination_sites": sites})
+}
+
+// c14BodyPatterns: node bodies of n bytes.
+func c14BodyPatterns(n int) [][]byte {
+	mk := func(f func(i int) byte) []byte {
+		b := make([]byte, n)
+		for i := range b {
+			b[i] = f(i)
+		}
+		return b
+	}
+	return [][]byte{
+		mk(func(i int) byte { return 0x00 }),
+		mk(func(i int) byte { return 0xff }),
+		mk(func(i int) byte { return 'A' }), // text without any NUL
+		mk(func(i int) byte { // text, one NUL as the last byte
+			if i == n-1 {
+				return 0
+			}
+			return 'A'
+		}),
+		mk(func(i int) byte { // text, NUL in the middle and at the end
+			if i == n-1 || i == n/2 {
+				return 0
+			}
+			return 'B'
+		}),
+		mk(func(i int) byte { // 12 bytes of fields, then text with a single terminator
+			if i == n-1 || i < 12 && i%4 != 0 {
+				return 0
+			}
+			return 'C'
+		}),
+		mk(func(i int) byte { // UTF-16LE text, terminated
+			if i%2 == 1 || i >= n-2 {
+				return 0
+			}
+			return 'D'
+		}),
+		mk(func(i int) byte { return byte(i + 1) }),
+	}
 }
